@@ -228,7 +228,11 @@ def run_shard(spec, rec):
                     rec.feat("source:%s:%s" % (src, "compiles" if o[0] == "ok" else "rejected"))
                     bad = outcome_bad(o)
                     if bad:
-                        rec.violation("compile:" + bad, {"query": text, "source": src, "observed": mon.describe_outcome(o)})
+                        small = text
+                        if rec.viol_counts.get("compile:" + bad, 0) == 0:
+                            from ..shrink import shrink_text
+                            small = shrink_text(text, lambda t: outcome_bad(mon.observe(jp.compile, t)) == bad, budget=150)
+                        rec.violation("compile:" + bad, {"query": small, "original_query": text, "source": src, "observed": mon.describe_outcome(mon.observe(jp.compile, small))})
                     if o[0] == "ok":
                         q = o[1]
                         docs = [R.choice(ROOTS) for _ in range(3)]
